@@ -281,7 +281,19 @@ let run_pp (c : case) =
            | Eval.RErr e -> pr "err %s\n" (canon_perr e)
            | Eval.RPanic k -> pr "model-panic %d\n" (int_of_n k)
            | Eval.RFuel -> pr "model-fuel\n"
-           | Eval.RNeedParse t -> pr "model-needparse %s\n" (hex (string_of_nlist t)))
+           | Eval.RNeedParse t -> pr "model-needparse %s\n" (hex (string_of_nlist t)));
+          (* hypothesis of SkipFacts.skipped_no_effect on every file of the case (and the text of a
+             preprocess_str run): every listed node met with skip off is erasable *)
+          let okall = ref true and met = ref 0 in
+          let one text path =
+            let (b, n) = SkipCheck.skip_hyp_file (nat_of_int 6000) cfg text path d !ignore_ !strip in
+            if not b then okall := false;
+            met := !met + int_of_nat n in
+          Stdlib.List.iter (fun (pth, e) -> match e with Eval.FText t -> one t pth | _ -> ()) !fs;
+          (match what, args with
+           | "preprocess_str", t :: pth :: _ -> one (nlist_of_string (unhex t)) (nlist_of_string (unhex pth))
+           | _ -> ());
+          pr "skiphyp %d %d\n" (if !okall then 1 else 0) !met
       | _ -> failwith "pp: unknown line")
     c.lines
 
